@@ -215,8 +215,83 @@ def r3_sibling_constructions(ctx, rule):
         ctx.ok(rule, MCF, 'all %d constructions pass target_level - cur_len[0] - cur_ip[0] and identical cursor-derived arguments' % len(sites))
 
 
+def r4_exact_last_transition(ctx, rule):
+    """The last transition must use up exactly the remaining level: _find_cp(ip, L, L) returns a level in [bottom, top]
+    and the lower bound is never weakened."""
+    q = GS + '_find_cp'
+    fn = ctx.fn(q)
+    ps = params(fn)   # self, ip, top_level, bottom_level
+    top, bottom = ps[2], ps[3]
+    stores = stores_in(fn)
+    ok = True
+    facts = {'stores_top': [U(s_) for s_, v in stores.get(top, [])], 'stores_bottom': [U(s_) for s_, v in stores.get(bottom, [])]}
+    if stores.get(bottom):
+        ok = False
+        ctx.bad(rule, q, 'lower bound re-bound: %s' % facts['stores_bottom'],
+                'for the last transition of a string the search is called with top == bottom == remaining level; if the lower '
+                'bound is lowered (e.g. clamped to max_level) a cheaper transition is accepted and the string is emitted at a '
+                'level that is not its cost', facts, fn)
+    for s_, v in stores.get(top, []):
+        good = (isinstance(s_, ast.AugAssign) and isinstance(s_.op, ast.Sub) and const(s_.value) == 1) or \
+               (v is not None and U(v) == 'self.max_level')
+        if not good:
+            ok = False
+            ctx.bad(rule, q, 'upper bound update ' + U(s_), 'the upper bound may only be clamped to max_level and stepped down', facts, s_)
+    loops = [n for n in walk_local(fn) if isinstance(n, ast.While)]
+    if len(loops) != 1 or U(loops[0].test) not in ('%s >= %s' % (top, bottom), '%s <= %s' % (bottom, top)):
+        ok = False
+        ctx.bad(rule, q, 'search loop ' + (U(loops[0].test) if loops else 'missing'), 'levels from top down to bottom inclusive', facts, fn)
+    else:
+        rets = [r for r in walk_local(loops[0]) if isinstance(r, ast.Return)]
+        if len(rets) != 1 or U(rets[0].value) != '(self.cp[%s][%s], %s)' % (ps[1], top, top):
+            ok = False
+            ctx.bad(rule, q, 'returns %s' % [U(r.value) for r in rets], 'the level found must be reported as found', facts, loops[0])
+    # the base case of the fill asks for exactly the target
+    fq = GS + '_fill_out_parse_tree'
+    ff = ctx.fn(fq)
+    fps = params(ff)
+    base = [n for n in ff.body if isinstance(n, ast.If) and U(n.test) == '%s == 1' % fps[2]]
+    calls = [c for n in base for c in calls_in(n) if call_name(c) == 'self._find_cp']
+    if len(calls) != 1 or [U(a) for a in calls[0].args] != [fps[1], fps[3], fps[3]]:
+        ok = False
+        ctx.bad(rule, fq, 'last transition searched with %s' % ([U(a) for a in calls[0].args] if calls else None),
+                'length 1 must search for exactly the remaining level (top = bottom = target)', facts, ff)
+    if ok:
+        ctx.ok(rule, q, 'last transition: _find_cp(ip, L, L); the lower bound is never weakened; top only clamped/stepped down', facts)
+
+
+def r5_sibling_cursor_advance(ctx, rule):
+    """In both cursor-advance functions a candidate that exists at a level within the budget is always taken:
+    the `size > index` branch sets the cursor, builds the structure and returns True - no further pruning."""
+    n = 0
+    for q in (MC + '_increase_len_for_target', MC + '_increase_ip_for_target'):
+        fn = ctx.fn(q)
+        found = False
+        for node in walk_local(fn):
+            if isinstance(node, ast.If) and isinstance(node.test, ast.Compare) and len(node.test.ops) == 1 \
+                    and isinstance(node.test.ops[0], (ast.Gt, ast.Lt)) and 'index' in U(node.test) and ('size' in U(node.test) or 'len(' in U(node.test)):
+                found = True
+                n += 1
+                body = node.body
+                extra = [s_ for s_ in walk_stmts(body) if isinstance(s_, (ast.If, ast.Continue, ast.Break, ast.While, ast.For))]
+                ends = body and isinstance(body[-1], ast.Return) and const(body[-1].value) is True
+                builds = any(call_name(c) == 'GuessStructure' for s_ in body for c in calls_in(s_))
+                facts = {'branch': [U(s_)[:60] for s_ in body]}
+                if extra or not ends or not builds:
+                    ctx.bad(rule, q, 'candidate branch prunes or does not accept: %s' % (U(extra[0])[:70] if extra else facts['branch'][-1:]),
+                            'a length / initial n-gram that exists at a level within the budget must be tried; an extra pruning '
+                            'condition (e.g. a bound that forgets what the initial n-gram can absorb) drops strings of the level',
+                            facts, node)
+                else:
+                    ctx.ok(rule, q, 'an existing candidate is always taken (cursor set, structure built, return True)', facts)
+        if not found:
+            ctx.unk(rule, q, 'candidate test (size > index) not found')
+    ctx.floor(rule, MCF, n, 2, 'candidate branches')
+
+
 def rules(tier):
-    return [('C10.R1', r1_copy_discipline), ('C10.R2', r2_memo_key), ('C10.R3', r3_sibling_constructions)]
+    return [('C10.R1', r1_copy_discipline), ('C10.R2', r2_memo_key), ('C10.R3', r3_sibling_constructions), ('C10.R4', r4_exact_last_transition),
+            ('C10.R5', r5_sibling_cursor_advance)]
 
 
 META = {
